@@ -207,27 +207,28 @@ def empty_path_ub(ctx, T):
     Only a sanitizer report on a NON-empty path is a finding of this check."""
     if 'asan' not in T.exe:
         return
+    import concurrent.futures as cf
     seen = []
-    for et in (1, 2, 3, 4):
-        c = dict(ml=2.0, at=0.0, pc=0, rev=0, delta=10.0, groups=[dict(jt=0, et=et, paths=[[], [(0, 0), (100, 0), (100, 100)]])])
-        o = T.H1(oc.exe_line(c, 'RUN'), 'asan')
-        ctx.count('evaluations', 1)
+    ub = [dict(ml=2.0, at=0.0, pc=0, rev=0, delta=10.0, groups=[dict(jt=0, et=et, paths=[[], [(0, 0), (100, 0), (100, 100)]])]) for et in (1, 2, 3, 4)]
+    # control: the same without the empty path (one-, two- and three-point paths) must be clean
+    ctl = [dict(ml=2.0, at=0.0, pc=0, rev=0, delta=10.0, groups=[dict(jt=0, et=et, paths=[[(5, 5)], [(0, 0), (90, 30)], [(0, 0), (100, 0), (100, 100)]])])
+           for et in (1, 2, 3, 4)]
+    with cf.ThreadPoolExecutor(max_workers=8) as ex:
+        outs = list(ex.map(lambda c: T.H1(oc.exe_line(c, 'RUN'), 'asan'), ub + ctl))
+    ctx.count('evaluations', len(outs))
+    for c, o in zip(ub, outs[:4]):
         if o.startswith('CRASH'):
-            seen.append(oc.ET[et])
+            seen.append(oc.ET[c['groups'][0]['et']])
             ctx.sample(dict(kind='c07-asan', case=c, report=o[:300]), limit=1, key='empty_path_ub_sample')
     ctx.cov['empty_path_ub_observed'] = seen
     if seen:
         ctx.notes.append('outside C07 (belongs to C10): an empty path in an EndType::%s group makes DoGroupOffset read path[0]/norms[0] of an '
                          'empty vector (UBSan: reference binding to null pointer), as the model predicts (C07_accesses_in_bounds_refuted)'
                          % '/'.join(seen))
-    # control: the same without the empty path must be clean
-    for et in (1, 2, 3, 4):
-        c = dict(ml=2.0, at=0.0, pc=0, rev=0, delta=10.0, groups=[dict(jt=0, et=et, paths=[[(5, 5)], [(0, 0), (90, 30)], [(0, 0), (100, 0), (100, 100)]])])
-        o = T.H1(oc.exe_line(c, 'RUN'), 'asan')
-        ctx.count('evaluations', 1)
+    for c, o in zip(ctl, outs[4:]):
         if o.startswith('CRASH'):
-            oc.viol(ctx, 'offset.sanitizer-report', 'C07: sanitizer report on one-, two- and three-point open paths (end type %s): %s' % (oc.ET[et], o[:400]),
-                          replay=dict(kind='c07-asan', case=c))
+            oc.viol(ctx, 'offset.sanitizer-report', 'C07: sanitizer report on one-, two- and three-point open paths (end type %s): %s'
+                    % (oc.ET[c['groups'][0]['et']], o[:400]), replay=dict(kind='c07-asan', case=c))
 
 
 # ----------------------------------------------------------------------------- corpus
